@@ -56,6 +56,7 @@ Definition ex_ds : dataset := [
   E 0x0029 0x1002 "LO" 1 "" "Private tag data" (VStr CStr (lit "second"));
   E 0x0040 0x0010 "OB" 1 "" "Scheduled  [station] name" (VBytes [0; 255]);
   E 0x6002 0x3000 "OW" 1 "" "Overlay Data" (VBytes [1; 2]);
+  E 0x7fe0 0x0008 "OF" 1 "FloatPixelData" "Float Pixel Data" (VBytes [0; 0; 128; 63]);
   E 0x7fe0 0x0010 "OW" 1 "PixelData" "Pixel Data" (VBytes [97; 98])
 ].
 
@@ -73,7 +74,7 @@ Lemma ex_extract : extract 3 ex_cfg ex_ds = Ok ex_result.
 Proof. vm_compute. reflexivity. Qed.
 
 Lemma ex_kinds : kinds_from ex_cfg [] ex_ds =
-  [KPlain; KBlank; KNoValue; KSequence; KPlain; KPlain; KIgnored; KIgnored; KTranslated; KIgnored; KNoValue; KIgnored; KIgnored].
+  [KPlain; KBlank; KNoValue; KSequence; KPlain; KPlain; KIgnored; KIgnored; KTranslated; KIgnored; KNoValue; KIgnored; KIgnored; KIgnored].
 Proof. vm_compute. reflexivity. Qed.
 
 Lemma ex_run : exists st, run 3 ex_cfg ex_ds = Ok st /\
